@@ -286,7 +286,7 @@ static Obs observe(const DiscreteDistributionInterface& d, const Cfg& c)
 // a domain end afterwards).  Medians that are wrong before the rescaling do not qualify.
 static bool medianRescaleOnly(const DiscreteDistributionInterface& d, const Obs& o)
 {
-  if (o.failed || o.B.size() != o.n + 1 || o.v.size() != o.n) return false;
+  if (o.failed || o.B.size() != o.n + 1 || o.v.empty() || o.v.size() > o.n) return false;
   try
   {
     size_t n = o.n;
@@ -301,16 +301,21 @@ static bool medianRescaleOnly(const DiscreteDistributionInterface& d, const Obs&
       t += u[i];
     }
     double f = t != 0 ? (d.Expectation(o.upper) - d.Expectation(o.lower)) / t / ec : 1;
-    // (the class map sorts the rescaled values: with a negative factor their order is reversed)
-    std::vector<double> ws(n);
-    for (size_t i = 0; i < n; ++i) ws[i] = u[i] * f;
-    std::sort(ws.begin(), ws.end());
+    // The class map sorts the rescaled values (a negative factor reverses their order) and merges those it
+    // cannot tell apart (fewer classes than requested): compare as sets, within 1e-9 relative + 1e-11.
+    auto near = [](double a, double b) { return std::fabs(a - b) <= 1e-9 * std::max(1.0, std::fabs(b)) + 1e-11; };
+    for (double x : o.v)
+    {
+      bool ok = near(x, o.lower) || near(x, o.upper);
+      for (size_t i = 0; i < n && !ok; ++i) ok = near(x, u[i] * f);
+      if (!ok) return false;
+    }
     for (size_t i = 0; i < n; ++i)
     {
-      double w = ws[i], tol = 1e-9 * std::max(1.0, std::fabs(w));
-      bool scaled = std::fabs(o.v[i] - w) <= tol;
-      bool atEnd = std::fabs(o.v[i] - o.lower) <= tol || std::fabs(o.v[i] - o.upper) <= tol;
-      if (!scaled && !atEnd) return false;
+      double w = u[i] * f;
+      bool ok = w <= o.lower || w >= o.upper; // clamped to an end
+      for (size_t j = 0; j < o.v.size() && !ok; ++j) ok = near(o.v[j], w);
+      if (!ok) return false;
     }
     return true;
   }
@@ -504,6 +509,8 @@ static std::string nsOf(const std::string& fam)
   if (fam == "uniform") return "Uniform.";
   if (fam == "constant") return "Constant.";
   if (fam == "simple") return "Simple.";
+  if (fam == "invariant") return "Invariant.";
+  if (fam == "mixture") return "Mixture.";
   return "";
 }
 
@@ -511,6 +518,8 @@ struct Target
 {
   int inner; // -1 = own parameter, k = parameter of component k
   std::string name;
+  bool deep = false; // component k of a mixture is an invariant-mixed distribution: parameter of ITS nested distribution
+  Target(int i, const std::string& n, bool d = false) : inner(i), name(n), deep(d) {}
 };
 
 class Runner
@@ -533,9 +542,15 @@ public:
     if (t.inner < 0) return t.name;
     const Cfg& ic = cfg.inner[static_cast<size_t>(t.inner)];
     if (cfg.fam == "invariant") return nsOf(ic.fam) + t.name;
-    return std::to_string(t.inner + 1) + "_" + nsOf(ic.fam) + t.name;
+    std::string comp = std::to_string(t.inner + 1) + "_" + nsOf(ic.fam);
+    return t.deep ? comp + nsOf(ic.inner[0].fam) + t.name : comp + t.name;
   }
-  Cfg& cfgOf(const Target& t) { return t.inner < 0 ? cfg : cfg.inner[static_cast<size_t>(t.inner)]; }
+  Cfg& cfgOf(const Target& t)
+  {
+    if (t.inner < 0) return cfg;
+    Cfg& ic = cfg.inner[static_cast<size_t>(t.inner)];
+    return t.deep ? ic.inner[0] : ic;
+  }
 
   Obj stJson() const
   {
@@ -636,10 +651,24 @@ public:
     if (r == "ok")
     {
       cfg.n = n;
-      for (auto& ic : cfg.inner) ic.n = n;
+      for (auto& ic : cfg.inner)
+      {
+        ic.n = n;
+        for (auto& ic2 : ic.inner) ic2.n = n;
+      }
     }
     Obj e;
     e.kv("e", "SetN").kv("a", n);
+    emit(e, r);
+  }
+
+  // a namespace change renames every parameter (own and nested); the classes must not move, and later
+  // parameter changes through the new names must still reach the nested distributions
+  void doSetNamespace(const std::string& prefix)
+  {
+    std::string r = outcome<bpp::Exception>([&]() { obj->setNamespace(prefix); });
+    Obj e;
+    e.kv("e", "SetNamespace").kv("a", prefix);
     emit(e, r);
   }
 
@@ -829,7 +858,7 @@ public:
   {
     std::vector<Target> t;
     if (cfg.fam != "uniform")
-      for (const auto& p : cfg.par) t.push_back(Target{-1, p.first});
+      for (const auto& p : cfg.par) t.push_back(Target(-1, p.first));
     for (size_t k = 0; k < cfg.inner.size(); ++k)
       if (cfg.inner[k].fam != "uniform")
         for (const auto& p : cfg.inner[k].par)
@@ -837,7 +866,7 @@ public:
           // known finding: a restriction tightens the nested truncation point's constraint, the copy of the
           // parameter held by the compound does not know, and a change refused by the nested object leaks
           if (p.first == "tp" && !cfg.restr.empty() && avoid("C09-compound-refused-nested-change-leaks")) continue;
-          t.push_back(Target{static_cast<int>(k), p.first});
+          t.push_back(Target(static_cast<int>(k), p.first));
         }
     return t;
   }
@@ -993,7 +1022,7 @@ public:
     bool avNarrow = !next.median && avoid("C09-class-narrower-than-precision");
     bool avMedian = next.median && avoid("C09-median-values-leave-their-class");
     bool avEmpty = avoid("C09-empty-class-equal-prob");
-    if (!avNarrow && !avMedian && !avEmpty) return true;
+    if (!avNarrow && !avMedian && !avEmpty && !(next.fam == "invariant" && avoid("C09-class-narrower-than-precision"))) return true;
     try
     {
       Guard g(3);
@@ -1011,6 +1040,16 @@ public:
         DistP d = buildFresh(c);
         Obs o = observe(*d, c);
         int cls = classifyShape(o);
+        if (g_dump) fprintf(stderr, "  scratch %s n=%zu median=%d: shape class %d, mro %d, sizes %zu\n", c.fam.c_str(), c.n, int(c.median), cls, int(o.mro), o.v.size());
+        // variant of the narrow-class situation: two or more nested values closer than the 1e-12 resolution of
+        // the compound's class map to the invariant are merged with it (class count below the nested count)
+        if (next.fam == "invariant" && &c != &todo[0] && avoid("C09-class-narrower-than-precision"))
+        {
+          size_t nearInv = 0;
+          for (double x : o.v)
+            if (std::fabs(x - next.invariant) <= 1.0000001e-12) ++nearInv;
+          if (nearInv >= 2) { ++steered; return false; }
+        }
         bool bad = (avNarrow && cls == 1) || (avMedian && cls != 0 && o.mro) || (avEmpty && c.kind() == "cont" && c.scheme == 1 && hasEmptyClass(o));
         // (scheme 1 only: "equal probabilities when possible" has to fall back to equal intervals instead)
         if (bad) { ++steered; return false; }
@@ -1045,7 +1084,11 @@ public:
         if (u.name != t.name || u.inner != t.inner) ch.push_back({u, goodValue(u)});
       }
       Cfg next = cfg;
-      for (const auto& c : ch) (c.first.inner < 0 ? next : next.inner[static_cast<size_t>(c.first.inner)]).set(c.first.name, c.second);
+      for (const auto& c : ch)
+      {
+        Cfg& tc = c.first.inner < 0 ? next : next.inner[static_cast<size_t>(c.first.inner)];
+        (c.first.deep ? tc.inner[0] : tc).set(c.first.name, c.second);
+      }
       if (!acceptable(next)) return false;
       doSetParam(ch, ch.size() > 1 ? 1 + static_cast<int>(rng.below(2)) : static_cast<int>(rng.below(3)));
     }
@@ -1078,7 +1121,12 @@ public:
       if (refusedAnyway && !regular(next)) return false;
       doRestrict(rs);
     }
-    else doCopy(static_cast<int>(rng.below(3)));
+    else if (r < 94) doCopy(static_cast<int>(rng.below(3)));
+    else
+    {
+      static const char* ns[] = {"A.", "Bb.", "A.c.", "Zz9."};
+      doSetNamespace(ns[rng.below(4)]);
+    }
     return true;
   }
 
@@ -1150,6 +1198,91 @@ public:
             }
   }
 
+  // namespace changes of compounds (explicit, twice, and by embedding an invariant-mixed distribution in a
+  // mixture, whose constructor renames its clone), each followed by changes of nested and own parameters
+  // through the new names
+  void renameScenarios()
+  {
+    for (size_t n : {size_t(2), size_t(4)})
+      for (int variant = 0; variant < 3; ++variant)
+      {
+        Cfg g;
+        g.fam = "gamma";
+        g.n = n;
+        g.par = {{"alpha", 0.9}, {"beta", 1.0}};
+        Cfg ex;
+        ex.fam = "exponential";
+        ex.n = n;
+        ex.par = {{"lambda", 2.0}};
+        Cfg inv;
+        inv.fam = "invariant";
+        inv.n = n;
+        inv.par = {{"p", 0.25}};
+        inv.inner.push_back(g);
+        Cfg c;
+        if (variant == 0) c = inv;
+        else
+        {
+          c.fam = "mixture";
+          c.n = n;
+          c.par = {{"theta1", 0.4}};
+          c.inner.push_back(variant == 1 ? g : inv); // variant 2: the invariant-mixed is embedded (renamed by the mixture)
+          c.inner.push_back(ex);
+        }
+        reset();
+        if (!doConstruct(c)) continue;
+        bool deep = variant == 2;
+        Target nested(variant == 0 ? 0 : 0, "alpha", deep);
+        if (variant == 2) doSetParam({{nested, 0.7}}, 0); // right after the embedding
+        doSetNamespace("A.");
+        doSetParam({{nested, 1.3}}, 1);
+        doSetNamespace("Bb.c.");
+        doSetParam({{Target(0, "beta", deep), 2.0}}, 0);
+        if (variant == 0) doSetParam({{Target(-1, "p"), 0.5}}, 2);
+        else doSetParam({{Target(-1, "theta1"), 0.6}}, 2);
+        if (variant == 2) doSetParam({{Target(0, "p"), 0.1}, {nested, 0.5}}, 1);
+        doSetN(n + 1);
+      }
+    // a restriction that excludes the invariant is refused and must leave no trace: the updates that follow
+    // recompute the classes and would show a nested distribution that had been restricted nevertheless
+    for (size_t n : {size_t(2), size_t(5)})
+    {
+      Cfg g, c;
+      g.fam = "gamma";
+      g.n = n;
+      g.par = {{"alpha", 0.5}, {"beta", 0.5}};
+      c.fam = "invariant";
+      c.n = n;
+      c.par = {{"p", 0.1}};
+      c.inner.push_back(g);
+      reset();
+      if (!doConstruct(c)) continue;
+      doRestrict(Restr{0.2, 5.0, true, true});
+      doSetParam({{Target(-1, "p"), 0.25}}, 0);
+      doSetN(n + 1);
+      doSetMedian(true);
+    }
+    // two components of a mixture made identical by a parameter change (their classes coincide and must
+    // share the probability), then moved apart again
+    for (size_t n : {size_t(1), size_t(3)})
+    {
+      Cfg g1, g2, c;
+      g1.fam = g2.fam = "gamma";
+      g1.n = g2.n = n;
+      g1.par = {{"alpha", 0.9}, {"beta", 1.0}};
+      g2.par = {{"alpha", 2.0}, {"beta", 1.0}};
+      c.fam = "mixture";
+      c.n = n;
+      c.par = {{"theta1", 0.3}};
+      c.inner = {g1, g2};
+      reset();
+      if (!doConstruct(c)) continue;
+      doSetParam({{Target(1, "alpha"), 0.9}}, 0);
+      doSetParam({{Target(-1, "theta1"), 0.6}}, 1);
+      doSetParam({{Target(0, "alpha"), 1.5}}, 2);
+    }
+  }
+
   // dedicated scenarios reproducing the known findings (the main generators steer around them)
   void probe(const std::string& id);
 };
@@ -1187,7 +1320,7 @@ void Runner::probe(const std::string& id)
     c.inner.push_back(in);
     if (!doConstruct(c)) return;
     doRestrict(Restr{-1.0, 3.0, true, true});                                        // tp must now stay <= 3 (nested constraint only)
-    doSetParam({{Target{-1, "p"}, 0.75}, {Target{0, "tp"}, 5.0}}, 1);                // refused by the nested object ...
+    doSetParam({{Target(-1, "p"), 0.75}, {Target(0, "tp"), 5.0}}, 1);                // refused by the nested object ...
     doSetMedian(true);                                                               // ... but p = 0.75 shows up here
   }
   else if (id == "C09-median-values-leave-their-class")
@@ -1234,6 +1367,7 @@ int main(int argc, char** argv)
     std::vector<size_t> ns;
     for (const auto& s : splitCsv(argStr(argc, argv, "--ns", "1,2,3,4"))) ns.push_back(static_cast<size_t>(atol(s.c_str())));
     r.gridMode(ns, static_cast<int>(argInt(argc, argv, "--steps", 3)));
+    r.renameScenarios();
   }
   else if (mode == "probe") r.probe(argStr(argc, argv, "--id", ""));
   tracer().close();
